@@ -6,6 +6,9 @@
   `len`, `get`) that mirrors the C functions, `Run` = a walk that yields a list and then `Terminal`,
   `LawfulAs I l` = foreach over `I` yields exactly `l` and ends with Terminal, the backward walk yields the reverse of `l`,
   `len I = |l|` and `get I i = l[i]` (where the type implements Len / a positional Get).
+  Containers that have been MUTATED before they are iterated (Cello/IterMut.lean): List with its head / tail / next / prev
+  link words (`LL`, `llI`), Array with its backing store (`AR`, `arI`), Table and Tree with their `nitems` field; the
+  theorems of the section "Mutated containers" hold for EVERY history of mutations.
   The model is tied to the C code by harness/h_iter.c ⇄ lean/Driver/Iter.lean on every run of `./check C11`.
 
   Known findings (the C code is wrong, the model mirrors it, the full statements are refuted below):
@@ -19,6 +22,7 @@ import CelloProofs.Lemmas.IterRange
 import CelloProofs.Lemmas.IterViews
 import CelloProofs.Lemmas.IterSlice
 import CelloProofs.Lemmas.IterCompose
+import CelloProofs.Lemmas.IterMutDenote
 
 namespace Cello.Iter
 
@@ -96,6 +100,39 @@ theorem C11_rangeList_mem (start stop step x : Int) :
     constructor
     · rintro ⟨j, hj, rfl⟩; exact ⟨j, rfl, (rangeLen_pos_iff start stop step hc j).mpr hj⟩
     · rintro ⟨j, rfl, hx⟩; exact ⟨j, (rangeLen_pos_iff start stop step hc j).mp hx, rfl⟩
+
+/-- **Range_Get is defined exactly inside the range** (fix 81e7452: the index is tested against `Range_Len` before anything is
+    computed): it answers an element for the indices `-len ≤ k < len` (negative = from the end) and raises
+    IndexOutOfBoundsError for every other — in particular for every index when the step is 0. -/
+theorem C11_rangeGet_defined_iff (a b c k : Int) :
+    (rangeGet a b c k).isSome ↔ (-(rangeLen a b c : Int) ≤ k ∧ k < (rangeLen a b c : Int)) := by
+  simp only [rangeGet]
+  by_cases hk : k < 0
+  · simp only [hk, if_true]
+    rcases Int.lt_trichotomy c 0 with hc | hc | hc
+    · have hnc : ¬ (c > 0) := by omega
+      simp only [hnc, false_and, if_false, hc, true_and]
+      split <;> simp <;> omega
+    · subst hc
+      have hz : rangeLen a b 0 = 0 := by simp [rangeLen]
+      simp only [Int.lt_irrefl, gt_iff_lt, false_and, if_false, hz]
+      simp
+    · simp only [gt_iff_lt, hc, true_and]
+      split <;> simp <;> omega
+  · simp only [hk, if_false]
+    rcases Int.lt_trichotomy c 0 with hc | hc | hc
+    · have hnc : ¬ (c > 0) := by omega
+      simp only [hnc, false_and, if_false, hc, true_and]
+      split <;> simp <;> omega
+    · subst hc
+      have hz : rangeLen a b 0 = 0 := by simp [rangeLen]
+      simp only [Int.lt_irrefl, gt_iff_lt, false_and, if_false, hz]
+      simp
+    · simp only [gt_iff_lt, hc, true_and]
+      split <;> simp <;> omega
+
+/-- before commit 81e7452 `Range_Get` of a range with step 0 answered 0 for every index although the range is empty -/
+theorem C11_rangeGet_old_refuted : rangeGetOld 0 5 0 3 = some 0 ∧ rangeLen 0 5 0 = 0 ∧ rangeGet 0 5 0 3 = none := by decide
 
 /-! ## Views: closure, to any nesting depth -/
 
@@ -223,12 +260,139 @@ theorem C11_slice_region_exact_small :
         (sliceBwdOk n a b c == decide (SliceRegionBwd n a b c)))))) = true := by
   decide +kernel
 
+/-! ## Mutated containers: lawful after ANY history -/
+
+/-- **List, one mutation from any state in the invariant** (the inductive step).  `LL.Chain l xs` is the doubly-linked
+    invariant: the nodes `xs` are distinct live blocks, `head` is the first and `tail` the last, the `prev` word of the
+    first and the `next` word of the last are NULL, `next` of every node is its successor and `prev` its predecessor,
+    `nitems` counts them.  From such a list every mutation (push, pop, push_at, pop_at, rem, set, concat, resize — built
+    from List_Link, List_Unlink, List_At as in List.c): never reads or writes through NULL or a freed node (no `undef`),
+    has the outcome and the effect on the element sequence of `listSpec`, leaves the list in the invariant, and changes
+    nothing when it raises. -/
+theorem C11_list_step_keeps_links {α : Type} [DecidableEq α] (z : α) (l : LL α) (xs : List (Nat × α))
+    (h : LL.Chain l xs) (op : SOp α) :
+    ∃ l' xs', LL.step z l op = (l', (listSpec z (LL.vals xs) op).2) ∧ LL.Chain l' xs' ∧
+      LL.vals xs' = (listSpec z (LL.vals xs) op).1 ∧ ((listSpec z (LL.vals xs) op).2 ≠ .ok → l' = l) :=
+  LL.step_chain z l xs h op
+
+/-- **List, every history**: `new(List, T, init…)` followed by ANY sequence of mutations ends — without the model of
+    List.c ever leaving the object — in a list in the doubly-linked invariant whose elements, and the outcome of every
+    mutation, are those of the abstract run `LL.specRun`. -/
+theorem C11_list_history_keeps_links {α : Type} [DecidableEq α] (z : α) (init : List α) (ops : List (SOp α)) :
+    ∃ l0 l xs, LL.new init = (l0, .ok) ∧ LL.run z l0 ops = (l, (LL.specRun z init ops).2) ∧ LL.Chain l xs ∧
+      LL.vals xs = (LL.specRun z init ops).1 := by
+  obtain ⟨l0, xs0, e0, c0, v0⟩ := LL.new_chain init
+  obtain ⟨l, xs, e, c, v⟩ := LL.run_chain z ops l0 xs0 c0
+  rw [v0] at e v
+  exact ⟨l0, l, xs, e0, e, c, v⟩
+
+/-- the invariant in the words of `struct List`: `prev(head) = NULL`, `next(tail) = NULL`, `prev(next(x)) = x` for every
+    node, and `nitems = 0` exactly when `head` is NULL -/
+theorem C11_list_links_say {α : Type} (l : LL α) (xs : List (Nat × α)) (h : LL.Chain l xs) :
+    (∀ a, l.head = some a → ∃ nd, l.mem a = some nd ∧ nd.prev = none) ∧
+    (∀ a, l.tail = some a → ∃ nd, l.mem a = some nd ∧ nd.next = none) ∧
+    (∀ x ∈ xs, ∀ nd, l.mem x.1 = some nd → ∀ y, nd.next = some y → ∃ nd', l.mem y = some nd' ∧ nd'.prev = some x.1) ∧
+    (l.nitems = 0 ↔ l.head = none) :=
+  chain_links l xs h
+
+/-- **List in the invariant ⇒ lawful**: the forward walk along the `next` words yields the elements and then Terminal,
+    the backward walk along the `prev` words their reverse, `len` (the `nitems` field) their number, `get i` (the
+    two-ended walk of List_At) the `i`-th. -/
+theorem C11_list_links_lawful {α : Type} (l : LL α) (xs : List (Nat × α)) (h : LL.Chain l xs) :
+    LawfulAs (llI l) (LL.vals xs) ∧ (llI l).len = some (LL.vals xs).length :=
+  ⟨ll_lawfulAs l xs h, by simp [llI, h.count, LL.vals]⟩
+
+/-- **List: lawful after any history** — iteration over the list that `new(List, T, init…)` and ANY history of
+    mutations leave is lawful for the sequence the documented meaning of the history leaves. -/
+theorem C11_list_mutated_lawful {α : Type} [DecidableEq α] (z : α) (init : List α) (ops : List (SOp α)) :
+    ∃ l0 l, LL.new init = (l0, .ok) ∧ (LL.run z l0 ops).1 = l ∧ LawfulAs (llI l) (LL.specRun z init ops).1 ∧
+      (llI l).len = some (LL.specRun z init ops).1.length := by
+  obtain ⟨l0, l, xs, e0, e, c, v⟩ := C11_list_history_keeps_links z init ops
+  refine ⟨l0, l, e0, by rw [e], ?_, ?_⟩
+  · rw [← v]; exact ll_lawfulAs l xs c
+  · rw [← v]; simp [llI, c.count, LL.vals]
+
+/-- a list of two nodes whose head still carries the `prev` word of a removed (freed) predecessor — what List_Unlink
+    would leave if it did not clear it -/
+def staleList : LL Int :=
+  { mem := fun a => if a = 1 then some ⟨20, some 2, some 0⟩ else if a = 2 then some ⟨30, none, some 1⟩ else none,
+    head := some 1, tail := some 2, nitems := 2, brk := 3 }
+
+/-- the link words matter: `staleList` walks forwards correctly and agrees with `len` and `get`, but its backward walk
+    leaves the list after the first element — it is not lawful for any sequence -/
+theorem C11_list_stale_prev_refuted :
+    (llI staleList).forward 10 = ([20, 30], .term) ∧ (llI staleList).backward 10 = ([30, 20], .undef) ∧
+    ¬ Lawful (llI staleList) := by
+  refine ⟨by decide, by decide, ?_⟩
+  rintro ⟨xs, h⟩
+  have hl : 2 = xs.length := h.len 2 rfl
+  have h1 := (h.bwd none).runFuel 10 (by rw [List.length_reverse]; omega)
+  have h0 : runFuel (llI staleList).prev 10 ((llI staleList).last none) = ([30, 20], .undef) := by decide
+  rw [h0] at h1
+  have h2 : End.undef = End.term := congrArg Prod.snd h1
+  cases h2
+
+/-- **Array, one mutation from any state in the store invariant** (`AR.Holds a vs`: cells `0 … nitems-1` of the backing
+    store are initialised and hold `vs`, hence `nitems ≤ nslots`): Array_Reserve_More / _Less, the memmoves and the writes
+    stay inside the store (no `undef`), outcome and effect are those of `arraySpec`, the invariant is kept, a mutation
+    that raises changes nothing. -/
+theorem C11_array_step_keeps_store {α : Type} [DecidableEq α] (a : AR α) (vs : List α) (h : AR.Holds a vs) (op : SOp α) :
+    ∃ a', AR.step a op = (a', (arraySpec vs op).2) ∧ AR.Holds a' (arraySpec vs op).1 ∧
+      ((arraySpec vs op).2 ≠ .ok → a' = a) :=
+  AR.step_holds a vs h op
+
+/-- **Array: lawful after any history** — growth by push / push_at / concat, shrinking by pop / pop_at / rem / resize,
+    in any order: iteration over the store, `len` and `get` agree with the sequence the history leaves. -/
+theorem C11_array_mutated_lawful {α : Type} [DecidableEq α] (init : List α) (ops : List (SOp α)) :
+    ∃ a0 a, AR.new init = (a0, .ok) ∧ AR.run a0 ops = (a, (AR.specRun init ops).2) ∧ AR.Holds a (AR.specRun init ops).1 ∧
+      LawfulAs (arI a) (AR.specRun init ops).1 ∧ (arI a).len = some (AR.specRun init ops).1.length := by
+  obtain ⟨a0, e0, c0⟩ := AR.new_holds init
+  obtain ⟨a, e, c⟩ := AR.run_holds ops a0 init c0
+  exact ⟨a0, a, e0, e, c, ar_lawfulAs a _ c, by simp [arI, c.count]⟩
+
+/-- **Table in the representation invariant ⇒ lawful** (`Cello.Table.Rep`, the invariant that C02 proves of every
+    reachable table: here only imported): the slot scan yields the keys in slot order and then Terminal, backwards the
+    reverse, `len` (the `nitems` FIELD) is their number = the number of bindings, and they are exactly the keys of the
+    map, each once. -/
+theorem C11_table_rep_lawful (t : MTab) (m : Cello.Table.Spec Int Int) (r : Cello.Table.Rep intHash t m) :
+    LawfulAs (tabI t) (occupied (tabSlots t)) ∧ (tabI t).len = some m.length ∧
+    (occupied (tabSlots t)).Perm (m.map Prod.fst) := by
+  obtain ⟨h1, h2, h3⟩ := tabI_lawful t m r
+  exact ⟨h1, by rw [← h2, ← h1.len t.nitems rfl]; rfl, h3⟩
+
+/-- **Table: lawful after any history** of set / rem / resize (displacement, back-shift, rehash on growth and on
+    shrinking, clearing): the model of Table.c — with the parameters read from the source on this run — never fails and the
+    resulting table iterates lawfully over the keys of the finite map the history leaves. -/
+theorem C11_table_mutated_lawful (init : List Int) (ops : List KOp) :
+    ∃ t, mtableOf init ops = some t ∧ LawfulAs (tabI t) (occupied (tabSlots t)) ∧
+      (tabI t).len = some (keyedRun [] (init.map KOp.set ++ ops)).1.length ∧
+      (occupied (tabSlots t)).Perm ((keyedRun [] (init.map KOp.set ++ ops)).1.map Prod.fst) := by
+  obtain ⟨t, e, r⟩ := mtableOf_spec init ops
+  obtain ⟨h1, h2, h3⟩ := C11_table_rep_lawful t _ r
+  exact ⟨t, e, h1, h2, h3⟩
+
+/-- **Tree with a `nitems` field**: for EVERY shape (whatever rotations produced it) whose field equals its number of
+    nodes — which is part of the invariant C03 proves of every reachable tree — the pointer walk is lawful over the
+    in-order sequence and `len` agrees. -/
+theorem C11_tree_field_lawful {α : Type} (t : T α) (n : Nat) (h : n = t.size) :
+    LawfulAs (treeNI t n) t.inorder ∧ (treeNI t n).len = some t.inorder.length :=
+  ⟨treeNI_lawfulAs t n h, by simp [treeNI, h, T.size_eq_length]⟩
+
+/-- **Tree: lawful after any history** of set / rem / resize in the model (`nitems++` only for a new key, `nitems--` only
+    for a present one, KeyError / FormatError leave it alone): the field counts the nodes, so iteration is lawful. -/
+theorem C11_tree_mutated_lawful (init : List Int) (ops : List KOp) :
+    LawfulAs (rbI (mtreeOf init ops)) (mtreeOf init ops).root.inorder ∧
+    (rbI (mtreeOf init ops)).len = some (mtreeOf init ops).root.inorder.length :=
+  C11_tree_field_lawful _ _ (mtreeOf_count init ops)
+
 /-! ## Every composition, to any nesting depth -/
 
 /-- **Compositions.** `denote` is the function the driver runs on an op-file expression (and the harness builds the same
     object from the real library); `specOf e` is the sequence the definitions select, defined exactly for the expressions
     outside known-finding territory (Tuples without a repeated object, Slices inside both regions, Zips of inputs of
-    equal length, Filters over fewer than `filterFuel` items).  For every such expression — containers, Range, and
+    equal length, Filters over fewer than `filterFuel` items; for a container given by a HISTORY of mutations —
+    `(mut list …)`, `(mut array …)`, `(mut table …)`, `(mut tree …)` — it is defined for every history).  For every such
+    expression — containers, mutated containers, Range, and
     Slice / reverse / Zip / enumerate / Filter / Map nested to ANY depth — the model object is constructed and is lawful
     for `specOf e`.  Proved by induction over the expression, using the closure theorems above. -/
 theorem C11_compositions_lawful (e : Expr) (l : List Val) (h : specOf e = some l) :
@@ -275,6 +439,23 @@ example : (specOf (.slice (.map (.enum (.list [5, 6, 7])) 1 0) [none, none, some
 
 example : (specOf (.zip [.tuple [4, 5], .slice (.array [1, 2, 3, 4, 5]) [some 1, some 4, some 2]])).map
     (fun l => l.map Val.show) = some ["(4,2)", "(5,4)"] := by decide
+
+/-- a List after removing its head, its tail and an inner element, inserting at the head and in the middle, clearing and
+    refilling: both walks, from the link words -/
+example : (mlistOf [10, 20, 30, 40] [.popAt 0]).map (fun l => ((llI l).forward 10, (llI l).backward 10)) =
+      some (([20, 30, 40], .term), ([40, 30, 20], .term)) ∧
+    (mlistOf [1, 2, 3, 4, 5] [.rem 1, .pop, .popAt 1, .pushAt 7 0, .pushAt 8 (-1), .resize 0, .push 6, .concat [9, 9]]).map
+      (fun l => ((llI l).forward 10, (llI l).backward 10)) = some (([6, 9, 9], .term), ([9, 9, 6], .term)) ∧
+    (LL.specRun 0 [1, 2, 3, 4, 5] [.rem 1, .pop, .popAt 1, .pushAt 7 0, .pushAt 8 (-1), .resize 0, .push 6, .concat [9, 9]]).1 = [6, 9, 9] ∧
+    (LL.specRun 0 [1, 2, 3] [.popAt 5, .rem 9, .pushAt 4 3, .popAt (-1)]) = ([1, 2], [.index, .value, .index, .ok]) := by
+  decide
+
+example : (marrayOf [1, 2, 3] [.pushAt 9 (-1), .pushAt 8 0, .popAt 1, .resize 2, .resize 7, .push 5]).map
+      (fun a => ((arI a).forward 10, (arI a).backward 10, a.nitems, a.store.length)) =
+      some (([8, 2, 5], .term), ([5, 2, 8], .term), 3, 7) := by decide
+
+example : (specOf (.slice (.mlist [1, 2, 3] [.popAt 0, .push 4]) [none, none, some (-1)])).map (fun l => l.map Val.show) =
+    some ["4", "3", "2"] := by decide
 
 /-- outside the admissible part `specOf` is undefined: a Slice outside its region, a Zip of unequal inputs -/
 example : specOf (.slice (.array [1, 2, 3, 4, 5, 6]) [some 0, some 2]) = none ∧
